@@ -82,13 +82,13 @@ func goArrayGetOwnProperty(obj *object, name string) *property {
 	// .0, .1, .2, ...
 	if index := stringToArrayIndex(name); index >= 0 {
 		goObj := obj.value.(*goArrayObject)
-		value := Value{}
 		reflectValue, exists := goObj.getValueIndex(index)
-		if exists {
-			value = obj.runtime.toValue(reflectValue.Interface())
+		if !exists {
+			// beyond the length there is no such property (`i in array` is false)
+			return nil
 		}
 		return &property{
-			value: value,
+			value: obj.runtime.toValue(reflectValue.Interface()),
 			mode:  goObj.propertyMode,
 		}
 	}
